@@ -188,10 +188,10 @@ Definition grewb (buf nb : bytes) : bool := Nat.ltb (length buf) (length (buf ++
 
 Lemma ti_poll f apps buf tl m now busy nb f' o apps' calls :
   Base f apps buf tl m -> TI f tl m -> no_stale f -> tl <= now -> time_ok now -> all_bytes nb ->
-  poll ops f now (mkPhyIn busy (buf ++ nb)) apps = Ok (f', o, apps', calls) ->
+  poll ops f now (mkPhyIn busy (buf ++ nb)) apps = Ok (f', o, apps', calls) -> no_stale f' ->
   TI f' now (fst (mon_poll p n m (poll_event now busy (buf ++ nb) f' o calls))).
 Proof.
-  intros HB [Tl Tsome Ts1 Ts2 Tq0 Tq1] HG Hle Hnow Hnb E.
+  intros HB [Tl Tsome Ts1 Ts2 Tq0 Tq1] HG Hle Hnow Hnb E HG'.
   pose proof (base_poll _ _ _ _ _ _ _ _ _ _ _ _ HB Hle Hnow Hnb E) as HB'.
   destruct HB as [R Hp Hn Hv Hl Hpd Hb Htl].
   pose proof (poll_lba_case _ _ _ _ _ _ _ _ _ E) as LC.
@@ -215,15 +215,18 @@ Proof.
   assert (Hfresh : f_lba f = None -> f_lba f' = None -> f_state f' = Offline).
   { intros E0 E1. pose proof (Tsome E0) as Hs. destruct Hconn as [(-> & _)|Ec]; [exact Hs|].
     destruct (poll_online_lba_some A ops now _ _ _ _ _ _ _ E Ec Hs E0) as [C|(S1 & _)]; [contradiction|exact S1]. }
-  set (g := grewb buf nb || busy).
-  assert (Hxg : x_grew m s || s_busy s = g) by (unfold x_grew, grewb, g; rewrite Hl; reflexivity).
+  set (g := (grewb buf nb || busy) && x_pre_online m).
+  assert (Hxg : (x_grew m s || s_busy s) && x_pre_online m = g) by (unfold x_grew, grewb, g; rewrite Hl; reflexivity).
+  assert (Hpo : x_pre_online m = match f_conn f with ConnOffline => false | _ => true end)
+    by (unfold x_pre_online, x_pre; rewrite Hv; reflexivity).
   (* activity seen by the monitor is activity seen by the station *)
   assert (Hg : g = true -> f_conn f = ConnOnline ->
                tx o = None /\ (f_lba f' = Some (Z.max (gv now (f_lba f)) now) \/ rst now f')).
-  { intros Hg1 Ec. apply Hact; [congruence|]. unfold g in Hg1. apply orb_prop in Hg1.
+  { intros Hg1 Ec. apply Hact; [congruence|]. unfold g in Hg1. apply andb_prop in Hg1. destruct Hg1 as (Hg1 & _).
+    apply orb_prop in Hg1.
     destruct Hg1 as [Hg1|Hg1]; [right|left; exact Hg1]. unfold grewb in Hg1. apply Nat.ltb_lt in Hg1. lia. }
   assert (Hnog : (length (buf ++ nb) <= f_pending f)%nat -> busy = false -> g = false).
-  { intros H1 ->. unfold g, grewb. rewrite orb_false_r. apply Nat.ltb_ge. lia. }
+  { intros H1 ->. unfold g, grewb. rewrite orb_false_r. replace (Nat.ltb _ _) with false by (symmetry; apply Nat.ltb_ge; lia). reflexivity. }
   (* the monitor's last bus activity before the transmission of this poll *)
   assert (HX : forall x, x_lba m s = Some x ->
              match f_lba f' with Some l' => tx o = None -> x <= l' | None => x <= now end /\
@@ -233,9 +236,8 @@ Proof.
     - injection Hx as <-. split; [|discriminate].
       assert (Hx0 : forall x0, m_lba m = Some x0 -> match f_lba f with Some l => x0 <= l | None => x0 <= now end).
       { intros x0 Em. specialize (Tl x0 Em). destruct (f_lba f); lia. }
-      destruct Hconn as [(-> & E0 & _)|Ec].
-      + rewrite E0. destruct (m_lba m) as [x0|] eqn:Em; cbn [zmax_opt]; [|lia].
-        specialize (Hx0 x0 eq_refl). rewrite E0 in Hx0. lia.
+      destruct Hconn as [(_ & _ & _ & Ec0)|Ec].
+      + exfalso. unfold g in Eg. rewrite Hpo, Ec0, andb_false_r in Eg. discriminate Eg.
       + destruct (Hg eq_refl Ec) as (Htx0 & [La|(S1 & C1 & P1 & L1)]).
         * rewrite La. intros _. destruct (m_lba m) as [x0|] eqn:Em; cbn [zmax_opt]; [|lia].
           specialize (Hx0 x0 eq_refl). destruct (f_lba f); cbn [gv]; lia.
@@ -282,9 +284,18 @@ Proof.
   - (* ti_s2 *)
     rewrite m_start_x_m3. unfold x_start, x_online, x_post. cbn [s_view s_now s poll_event view_of v_conn].
     intros t0 H.
-    assert (Hc' : f_conn f' <> ConnOffline) by (intros C; rewrite C in H; discriminate H).
+    destruct (f_conn f') eqn:Ec'.
+    { (* the station is offline after the poll: it has no last_bus_activity (known class excluded) *)
+      pose proof (HG' (Hoff' eq_refl)) as E0'.
+      assert (Ht0 : t0 <= now).
+      { rewrite Hpo in H. destruct Hconn as [(_ & _ & _ & Ec0)|Ec0]; rewrite Ec0 in H.
+        - destruct (Ts2 t0 H) as (Ht & _). lia.
+        - injection H as <-. lia. }
+      split; [exact Ht0|]. intros l' El'. rewrite E0' in El'. discriminate El'. }
+    { exfalso. pose proof (rep_conn _ _ (b_rep _ _ _ _ _ HB')) as C. rewrite Ec' in C. destruct (f_state f'); cbn in C; try congruence; contradiction. }
+    assert (Hc' : ConnOnline <> ConnOffline) by discriminate.
     assert (H0 : (m_start m = Some t0) \/ (m_start m = None /\ t0 = now)).
-    { destruct (f_conn f'); [contradiction| |]; destruct (m_start m); injection H as <-; auto. }
+    { destruct (m_start m); injection H as <-; auto. }
     destruct H0 as [Es|(Es & ->)].
     + destruct (Ts2 t0 Es) as (Ht0 & Hl0). split; [lia|]. intros l' El'.
       destruct LC as [wire l Etx L' Hb0 Hng El Hlt|Etx L'|Etx L'|Etx M L'|Etx (S1 & C1 & P1 & L1) Hl1].
@@ -292,14 +303,14 @@ Proof.
       * rewrite L' in El'. exact (Hl0 _ El').
       * rewrite L' in El'. injection El' as <-. destruct (f_lba f) as [l|] eqn:El; cbn [gv]; [exact (Hl0 l eq_refl)|lia].
       * rewrite L' in El'. injection El' as <-. destruct (f_lba f) as [l|] eqn:El; cbn [gv]; [specialize (Hl0 l eq_refl); lia|lia].
-      * contradiction.
+      * congruence.
     + split; [lia|]. intros l' El'. pose proof (HG (Ts1 Es)) as E0.
       destruct LC as [wire l Etx L' Hb0 Hng El Hlt|Etx L'|Etx L'|Etx M L'|Etx (S1 & C1 & P1 & L1) Hl1].
       * rewrite E0 in El. discriminate El.
       * rewrite L', E0 in El'. discriminate El'.
       * rewrite L', E0 in El'. cbn [gv] in El'. injection El' as <-. lia.
       * rewrite L', E0 in El'. cbn [gv] in El'. injection El' as <-. lia.
-      * contradiction.
+      * congruence.
   - (* ti_q0 *)
     rewrite m_quiet_x_m3. unfold x_quiet, x_online, x_post. cbn [s_view s poll_event view_of v_conn].
     intros H. apply Hoff'. destruct (f_conn f'); [reflexivity| |]; cbn [negb] in H;
